@@ -680,6 +680,7 @@ sock_shutdown(nni_sock *sock, bool device)
 	}
 	// Mark us closing, so no more EPs or changes can occur.
 	sock->s_closing = true;
+	NNI_VERIF_DELAY(5, sock);
 
 	while ((l = nni_list_first(&sock->s_listeners)) != NULL) {
 		nni_listener_hold(l);
@@ -702,6 +703,7 @@ sock_shutdown(nni_sock *sock, bool device)
 	}
 
 	nni_mtx_unlock(&sock->s_mx);
+	NNI_VERIF_DELAY(6, sock);
 
 	// Close the upper queues immediately.
 	nni_msgq_close(sock->s_urq);
@@ -741,6 +743,7 @@ sock_shutdown(nni_sock *sock, bool device)
 	}
 	NNI_ASSERT(nni_list_first(&sock->s_pipes) == NULL);
 	nni_mtx_unlock(&sock->s_mx);
+	NNI_VERIF_DELAY(7, sock);
 
 	sock->s_sock_ops.sock_close(sock->s_data);
 
@@ -771,6 +774,7 @@ sock_close(nni_sock *s, bool device)
 		nni_sock_rele(s);
 		return (rv);
 	}
+	NNI_VERIF_DELAY(8, s);
 
 	nni_mtx_lock(&sock_lk);
 	if (s->s_closed) {
@@ -1166,6 +1170,7 @@ nni_ctx_rele(nni_ctx *ctx)
 	nni_list_remove(&sock->s_ctxs, ctx);
 	nni_cv_wake(&sock->s_close_cv);
 	nni_mtx_unlock(&sock_lk);
+	NNI_VERIF_DELAY(15, ctx);
 
 	nni_ctx_destroy(ctx);
 }
@@ -1210,6 +1215,7 @@ nni_ctx_open(nni_ctx **ctxp, nni_sock *sock)
 
 	nni_list_append(&sock->s_ctxs, ctx);
 	nni_mtx_unlock(&sock_lk);
+	NNI_VERIF_DELAY(11, ctx);
 
 	// Paranoia, fixing a possible race in close.  Don't let us
 	// give back a context if the socket is being shutdown (it
@@ -1232,6 +1238,7 @@ nni_ctx_close(nni_ctx *ctx)
 	nni_mtx_lock(&sock_lk);
 	ctx->c_closed = true;
 	nni_mtx_unlock(&sock_lk);
+	NNI_VERIF_DELAY(12, ctx);
 
 	nni_ctx_rele(ctx);
 }
